@@ -1,5 +1,6 @@
 //! tracegen: drives the real griddle crate through seeded, phase-directed histories, records one
 //! trace record per operation (for the Coq model comparator) and runs the property monitors.
+mod copymon;
 mod rt;
 mod set;
 #[cfg(feature = "par")]
@@ -2088,6 +2089,11 @@ fn main() {
             if family == "zst" {
                 set::zst_history(&mut sx, maxops);
             } else {
+                if monitors {
+                    let mut r2 = Rng::new(hseed ^ 0xC0FF_EE00);
+                    copymon::run(&mut r2, &sx.hist_id, family == "parset");
+                    *sx.stats.entry("op:copy_type_extend".to_string()).or_insert(0) += 1;
+                }
                 set::history(&mut sx, maxops);
             }
             for (p, m) in PEND.with(|p| std::mem::take(&mut *p.borrow_mut())) {
@@ -2134,6 +2140,11 @@ fn main() {
         // progress marker, flushed before the history runs: a hang or a crash is then attributable
         if let Some(ref p) = progressp {
             let _ = std::fs::write(p, format!("{}\n", cx.hist_id));
+        }
+        if monitors && matches!(family.as_str(), "core" | "mixed" | "par" | "set") {
+            let mut r2 = Rng::new(hseed ^ 0xC0FF_EE00);
+            copymon::run(&mut r2, &cx.hist_id, family == "par");
+            cx.bump("op:copy_type_extend");
         }
         gen::history(&mut cx, &family, maxops);
         // end of history: drop everything; nothing may stay alive
